@@ -366,6 +366,61 @@ def sampler_composites(res, ctx, rng, fams):
                 return
 
 
+def fault_composites(res, ctx, rng, fams):
+    """The protection names a page-fault trace shows are those of a real-fault record of ITS OWN window.  The capture
+    is a dump read by the front end and consumed lazily, each trace dropped before the next is asked for (records die,
+    their addresses are reused); real-fault records also occur outside any window and between the windows run a varying
+    number of records of other threads."""
+    import io
+    from pykdebugparser.pykdebugparser import PyKdebugParser
+    from vlib import gen, wire
+    kinds = ('internal', 'external', 'shared', 'purgeable')
+    for it in range(ctx.pick(40, 1200)):
+        items, windows = [], {}
+        for w in range(rng.randrange(3, 9)):
+            tid = 30 + rng.randrange(3)
+            for _ in range(rng.randrange(0, 3)):        # real-fault records outside any window
+                items.append((tid, H.real_fault(rng.choice(kinds), rng.getrandbits(40), rng.randrange(256), rng.randrange(1, 12), 77)))
+            for _ in range(rng.randrange(0, 7)):        # other threads in between
+                items += [(40, a) for a in H.unrelated(rng, 1)]
+            nested = [(rng.choice(kinds), rng.randrange(256)) for _ in range(rng.randrange(0, 3))]
+            addr = (it << 20) | (w << 8) | 0x10
+            seq = H.page_fault(addr, 0, rng.choice((0, 0, 0, 1)), rng.randrange(1, 12),
+                               [H.real_fault(k, rng.getrandbits(40), p, rng.randrange(1, 12), 78) for k, p in nested])
+            items += [(tid, a) for a in seq]
+            windows[addr] = nested
+        events = H.materialize(items, t0=0x100000001)
+        data = wire.v2_file(gen.threadmap_for(events), 8, gen.events_to_records(events))
+        case = {'file': data}
+        seen = 0
+        try:
+            for tr in PyKdebugParser().traces(io.BytesIO(data)):
+                if type(tr).__name__ != 'MachVmfault':
+                    continue
+                nested = windows.get(tr.addr)
+                if nested is None:
+                    continue
+                seen += 1
+                shown = None if tr.caller_prot is None else sorted(f.name for f in tr.caller_prot)
+                acceptable = [None] + [sorted(n for n, b in fams['vmprot'].single.items() if p & b) for k, p in nested
+                                       if k != 'purgeable']
+                res.case(('fault-composite', tuple(nested)))
+                res.count('fault_composites_checked')
+                if shown is not None and [x for x in shown if x != 'VM_PROT_NONE'] not in \
+                        [[x for x in a if x != 'VM_PROT_NONE'] for a in acceptable if a is not None]:
+                    res.violation('c11-vmprot-of-another-record', f'page fault at {hex(tr.addr)} shows {shown}; the real-fault '
+                                  f'records of its window carry the protections {[(k, hex(p)) for k, p in nested]} (capture '
+                                  f'consumed lazily, real-fault records also outside windows)', case)
+                    return
+                del tr
+        except Exception as x:
+            res.violation(f'c11-fault-composite-raises-{core.exc_name(x)}', f'{x!r} at {core.short_tb(x)}', case)
+            return
+        if seen != len(windows):
+            res.violation('c11-fault-composite-count', f'{seen} page-fault traces for {len(windows)} windows', case)
+            return
+
+
 IOC_RE = re.compile(r"/\* _IOC\((.*?), '(.)', (\d+), (\d+)\) \*/", re.S)
 
 
@@ -433,6 +488,7 @@ def run(ctx):
     drive_helpers(res, ctx, rng, fams)
     drive_pipeline(res, ctx, rng, fams)
     sampler_composites(res, ctx, rng, fams)
+    fault_composites(res, ctx, rng, fams)
     drive_ioctl(res, ctx, rng)
     if ctx.shard == 0:
         from pykdebugparser.trace_handlers import bsd
@@ -446,6 +502,7 @@ def run(ctx):
     res.require('pipeline_renderings_checked', 100)
     res.require('ioctl_words_checked', 100)
     res.require('sampler_composites_checked', 20)
+    res.require('fault_composites_checked', 50)
     res.require('enum_values_compared_with_reference', 50)
     return res
 
